@@ -21,6 +21,7 @@ CHECKS = {
     "C10": dict(
         category="model_checking",
         text="Object-layer models shaped like the code (GcmObj, CcmObj with declared/undeclared lengths, AeadFsm for EAX/SIV/OCB/ChaCha20-Poly1305, "
+             "ClassicFsm for CBC/CFB/OFB/CTR/OpenPGP/ECB over seven block-cipher configurations, ChaCha20 with seek, Salsa20, ARC4, KW and KWP, "
              "HashFsm with copy for 40 hash/XOF/MAC configurations) are model-checked exhaustively over every call sequence to a depth bound with "
              "symbolic data (guards equal the documented diagram, TypeError leaves the object unchanged, terminal calls idempotent, MAC input equals "
              "the standard's formatting); TLC-generated sequences are replayed on the real objects and every recorded step is judged by TLC "
@@ -49,11 +50,12 @@ CHECKS = {
              "and once, a rejected message leaves the sequence number unchanged so the next genuine one opens, nonces are pairwise distinct, nothing is sealed "
              "at the limit, nothing opens under a different set-up; the increment-before-result variant is shown to violate it. TLC-generated histories "
              "(replay, reorder, corrupt, truncate, extend, other AAD) are replayed on real contexts of 5 KEMs x 3 AEADs x 4 modes with matching and "
-             "mismatching receivers; TLC judges every call (exception class, plaintext, projected sequence number) and, for the HKDF-SHA256 suites, recomputes "
+             "mismatching receivers; TLC judges every call (exception class, plaintext, projected sequence number) and, for a sample of contexts of every suite (HKDF-SHA256/384/512), recomputes "
              "kem_context, key schedule, per-message nonces and ciphertexts from RFC 9180 transcribed in TLA+ and uses the exact AEAD verdict. Set-up refusals are judged by rule.",
         design_ref="DESIGN.md section 6, C15",
         note="Trusted: TLC; HpkeData/HpkeSha256/AesAead/ChaChaPoly transcriptions (pinned by RFC 9180 A.1.1, FIPS 180-4, RFC 4231 and the AEAD vectors). The DH output is "
-             "taken from the trace (C06). For SHA-384/512 suites only channel behaviour is judged, under the ideal-AEAD assumption.",
+             "taken from the trace (C06). The key schedule and every ciphertext are recomputed for a sample of contexts (HKDF-SHA256 suites: 45 per quick run; "
+             "HKDF-SHA384/512 suites: 4); for the others the channel behaviour is judged under the ideal-AEAD assumption.",
         technique="TLA+ channel model checked exhaustively by TLC; spec->code replay of adversarial histories; code->spec trace validation with RFC 9180 transcribed in TLA+",
     ),
     "C19": dict(
